@@ -1,11 +1,12 @@
 package props
 
 import (
-	"regexp"
-	"strconv"
 	"fmt"
+	"regexp"
 	"sort"
+	"strconv"
 	"strings"
+	"unicode"
 
 	"pgregory.net/rapid"
 
@@ -21,10 +22,11 @@ type c20Case struct {
 	Tpl string  `json:"tpl"` // template under test
 	// Kind: pos | trunc | inject | name
 	Kind string `json:"kind"`
-	Cut  int    `json:"cut,omitempty"`    // trunc: byte offset
-	At   int    `json:"at,omitempty"`     // inject: token index
-	What string `json:"what,omitempty"`   // inject: unknown-tag | illegal:<c> | surplus
-	Via  string `json:"via,omitempty"`    // name: direct | include | extends | import ; loader in P.Loader
+	Cut  int    `json:"cut,omitempty"`  // trunc: byte offset
+	At   int    `json:"at,omitempty"`   // inject: token index
+	What string `json:"what,omitempty"` // inject: unknown-tag | illegal:<c> | surplus
+	Via  string `json:"via,omitempty"`  // name: direct | include | extends | import ; loader in P.Loader
+	Nm   int    `json:"nm,omitempty"`   // name: 1 + index into c20BrokenNames (0: chosen by a hash of the source)
 }
 
 var c20KindMap = map[string]string{
@@ -256,6 +258,9 @@ func init() {
 				return nil
 			}
 			bname := c20BrokenNames[int(hashStr(bad+cs.Via)%uint64(len(c20BrokenNames)))]
+			if cs.Nm > 0 && cs.Nm <= len(c20BrokenNames) {
+				bname = c20BrokenNames[cs.Nm-1]
+			}
 			tpls := map[string]string{bname: bad, "entry.twig": "x{% include '" + bname + "' %}", "child.twig": "{% extends '" + bname + "' %}", "imp.twig": "{% import '" + bname + "' as b %}"}
 			for n, s := range cs.C14.P.Sources() {
 				if n != cs.Tpl {
@@ -283,7 +288,7 @@ func init() {
 			if r.Status != "error" {
 				return &Fail{Sig: "name:accepted", Expected: "error", Observed: r.Out}
 			}
-			if !strings.Contains(r.Err, bname) && (r.ErrName != bname || strings.Contains(r.Err, "%!")) {
+			if !c20Names(r.Err, bname) && (r.ErrName != bname || strings.Contains(r.Err, "%!")) {
 				return &Fail{Sig: "name:missing", Expected: "an error naming " + bname + " (Name() and message)", Observed: fmt.Sprintf("%s (Name()=%q)", r.Err, r.ErrName)}
 			}
 		}
@@ -466,6 +471,7 @@ func init() {
 				// the loader itself fails, with an error that does not mention the name
 				cs.What = "loaderr"
 			}
+			cs.Nm = rapid.IntRange(1, len(c20BrokenNames)).Draw(t, "nm")
 			return cs
 		})
 	}
@@ -513,7 +519,28 @@ func c20Inject(toks []m.Tok, pos []m.Pos, src string, cs *c20Case) (string, int,
 }
 
 // c20BrokenNames are the names under which the broken template is loaded.
-var c20BrokenNames = []string{"broken.twig", "promo%20banner.html", "b%d.twig", "dir/sub file.txt", "ünï.twig", "100%.js"}
+var c20BrokenNames = []string{"broken.twig", "promo%20banner.html", "b%d.twig", "dir/sub file.txt", "ünï.twig", "100%.js", "e", "load", "in"}
+
+// c20Names reports whether an error message identifies a template: its name
+// occurs in the message as a word of its own, not as letters inside another
+// word (the template "e" is not named by "injected loader failure").
+func c20Names(msg, name string) bool {
+	word := func(r rune) bool { return r == '_' || unicode.IsLetter(r) || unicode.IsDigit(r) }
+	rs, ns := []rune(msg), []rune(name)
+	for i := 0; i+len(ns) <= len(rs); i++ {
+		if string(rs[i:i+len(ns)]) != name {
+			continue
+		}
+		if i > 0 && word(rs[i-1]) && word(ns[0]) {
+			continue
+		}
+		if i+len(ns) < len(rs) && word(rs[i+len(ns)]) && word(ns[len(ns)-1]) {
+			continue
+		}
+		return true
+	}
+	return false
+}
 
 // c20Marker is a template assembled from fragments with unique marker names.
 type c20Marker struct {
